@@ -77,7 +77,8 @@ def h03a(mid: int, flags: int, rcode: int, version: int, eflags: int, payload: i
     with concrete():
         # (the zone section of an UPDATE must be of type SOA)
         q = dns.rrset.RRset(dns.name.from_text("www.example."), IN, dns.rdatatype.SOA if opcode == 5 else dns.rdatatype.A)
-        a = dns.rrset.from_text("www.example.", 0, "IN", "A", "10.0.0.1", "10.0.0.2")
+        # (update messages are parsed one RR per rrset by design, so they get a single-record rrset)
+        a = dns.rrset.from_text("www.example.", 0, "IN", "A", "10.0.0.1", *([] if opcode == 5 else ["10.0.0.2"]))
     a.ttl = ttl
     m.question.append(q)
     m.answer.append(a)
@@ -103,16 +104,38 @@ def h03a(mid: int, flags: int, rcode: int, version: int, eflags: int, payload: i
     return p.to_wire(want_shuffle=False) == wire
 
 
+# Fields whose round trip goes through or/and of two symbolic words (set_rcode, EDNS flag word): z3 returns
+# `unknown` on the fully symbolic query, so these are selected (symbolically) from boundary pools instead.
+RCODE_POOL = [0, 1, 2, 3, 5, 9, 10, 15, 16, 17, 22, 23, 31, 32, 255, 256, 257, 2048, 4080, 4094, 4095]
+VERSION_POOL = [0, 1, 2, 127, 128, 254, 255]
+EFLAGS_POOL = [0, 0x8000, 0x4000, 0xFFFF, 0x0001, 0x7FFF, 0x00FF, 0xFF00, 0x8001]
+
+
 def h03a_pre(mid, flags, rcode, version, eflags, payload, optcode, optdata, ttl):
     # one group of fields is symbolic per shard, the others are pinned (the joint query is too hard for z3)
     vary = S("vary")
-    if vary != "header" and not (mid == 0x1234 and flags == 0x8180):
+    if vary != "id" and mid != 0x1234:
+        return False
+    if vary != "flags" and flags != 0x8180:
         return False
     if vary != "rcode" and rcode != 3:
         return False
-    if vary != "edns" and S("edns") and not (version == 0 and eflags == 0x8000 and payload == 1232):
+    if vary == "rcode" and rcode not in RCODE_POOL:
         return False
-    if vary != "option" and not (ttl == 300 and (not S("edns") or (optcode == 3 and optdata == b"n"))):
+    if vary == "version" and version not in VERSION_POOL:
+        return False
+    if vary == "eflags" and eflags not in EFLAGS_POOL:
+        return False
+    if S("edns"):
+        if vary != "version" and version != 0:
+            return False
+        if vary != "eflags" and eflags != 0x8000:
+            return False
+        if vary != "payload" and payload != 1232:
+            return False
+        if vary != "option" and not (optcode == 3 and optdata == b"n"):
+            return False
+    if vary != "ttl" and ttl != 300:
         return False
     ok = 0 <= mid <= 65535 and 0 <= flags <= 65535 and 0 <= ttl <= 2**31 - 1
     if S("edns"):
@@ -127,7 +150,7 @@ def h03a_shards(tier):
     out = []
     for o in ops:
         for e in (False, True):
-            for vary in ("header", "rcode", "option") + (("edns",) if e else ()):
+            for vary in ("id", "flags", "rcode", "ttl") + (("version", "eflags", "payload", "option") if e else ()):
                 out.append({"opcode": o, "edns": e, "vary": vary, "_timeout": 900, "_path_timeout": 120})
     return out
 
@@ -186,7 +209,9 @@ def h03b_pre(a0, a1, b0, b1, c0, t0, t1, rel):
 # ---------------------------------------------------------------- H03d dynamic update forms
 
 POOL_NAMES = ["a.example.", "b.example.", "example."]
-POOL_RD = [("A", "10.0.0.1"), ("A", "10.0.0.2"), ("TXT", '"x"'), ("MX", "10 mail.example.")]
+# (no embedded names: UpdateMessage relativizes names parsed from text to the zone origin, and the equality
+# clause of C03 is stated for messages that use absolute names)
+POOL_RD = [("A", "10.0.0.1"), ("A", "10.0.0.2"), ("TXT", '"x"'), ("TXT", '"y" "z"')]
 
 
 def h03d(o1: int, n1: int, r1: int, o2: int, n2: int, r2: int, ttl: int) -> bool:
@@ -284,7 +309,7 @@ HARNESSES = [
                      "dns.message.Message.set_rcode", "dns.message.Message.set_opcode", "dns.rcode.from_flags", "dns.rcode.to_flags",
                      "dns.opcode.from_flags", "dns.opcode.to_flags", "dns.message._WireReader.read", "dns.message._WireReader._get_section",
                      "dns.rdataset.Rdataset.to_wire"],
-            bound="one group symbolic per shard, the rest pinned: {id, flags (16 bit each)} | {rcode 0..15 without EDNS, 0..4095 with} | {EDNS version 8 bit, flags 16 bit, payload 16 bit} | {one option (3 codes, <= 2 octets), answer TTL 0..2^31-1}; opcode per shard (quick QUERY, UPDATE; thorough 0..15)",
+            bound="one field symbolic per shard, the rest pinned: id (16 bit) | flags (16 bit) | rcode (21 boundary values up to 4095; finite selection) | answer TTL (0..2^31-1) | EDNS version (7 boundary values; finite selection) | EDNS flags (9 values; finite selection) | payload (16 bit) | one option (3 codes, <= 2 octets); opcode per shard (quick QUERY, UPDATE; thorough 0..15)",
             stubs=["E1", "E5", "E6", "E8", "E12"], outside="several options; TSIG (C14)"),
     Harness("H03b", h03b, h03b_pre, lambda tier: [{"layout": i, "_timeout": 1200, "_path_timeout": 60} for i in ((0, 1) if tier == "quick" else (0, 1, 2))],
             kind="universal", encodes=["dns.name.Name.to_wire", "dns.renderer.Renderer.add_rrset", "dns.renderer.Renderer.add_question",
